@@ -358,3 +358,10 @@ Definition norm_padding (p : padding) : padding :=
 Definition norm_layout (l : layout) : layout :=
   mkLayout (option_map norm_point (l_origin l)) (option_map norm_stretch (l_extent l)) (option_map norm_padding (l_padding l))
            (l_alignment l) None.
+
+(* C13: a length observed in writer output, statement level: <= 2 decimals, the unit, within 1/200 (+1e-9 binary64 noise) *)
+Definition ok_print_tol_stmt (v : Q) (u : unit_) (printed : str) : bool :=
+  match spec_split printed with
+  | Some (num, u') => unit_eqb u u' && two_decimals num && Qle_bool (Qabs (number_q num - v)%Q) tol200
+  | None => false
+  end.
